@@ -29,6 +29,10 @@ type C07Cfg struct {
 	DeadlineMs int        `json:"deadlineMs"`
 	IntervalMs int        `json:"intervalMs"`
 	Budget     int        `json:"budget"`
+	// CancelOnReturn: every caller cancels its context as soon as its Synchronize call has returned (the usual
+	// `ctx, cancel := context.WithTimeout(...); defer cancel()`): a member that is done must go on answering
+	// the queries of slower members all the same
+	CancelOnReturn bool `json:"cancelOnReturn,omitempty"`
 }
 
 type C07Topic struct {
@@ -103,6 +107,7 @@ func genC07(seed uint64, tier string) C07Cfg {
 		}
 		c.Topics = append(c.Topics, C07Topic{Name: fmt.Sprintf("topic-%d-%d", t, r.Intn(1000)), Invokers: inv, Expected: exp})
 	}
+	c.CancelOnReturn = prng.Derive(seed, "cancel-on-return").Bool(0.5)
 	return c
 }
 
@@ -200,6 +205,9 @@ func runC07(t *testing.T, spec RunSpec) *RunResult {
 							rr.lists = append(rr.lists, append([]uint16(nil), l...))
 							rr.mu.Unlock()
 						}, []byte(tp.Name), tp.Expected, interval)
+						if cfg.CancelOnReturn {
+							cancel()
+						}
 						return nil, err
 					})
 					calls[k] = c
